@@ -124,4 +124,13 @@ CHECKS = {
             dict(name="regress", run="^TestRegressNilKeyAffected$", shards=(1, 1)),
         ],
     ),
+    "C10": dict(
+        pkg="./c10", level="exploration",
+        runs=[
+            dict(name="mock", run="^TestPropMock$", checks=(2500, 25000), shards=(4, 16), shrinktime="15s"),
+            dict(name="pairs", run="^TestExhaustivePairs$", shards=(2, 4)),
+            dict(name="badger", run="^TestPropBadger$", checks=(100, 1000), shards=(2, 8), shrinktime="15s"),
+            dict(name="regress", run="^TestRegress", shards=(1, 1)),
+        ],
+    ),
 }
